@@ -496,7 +496,8 @@ def replay_reg(cfg, inputs, label):
     inv_np = {"log": numpy.exp, "exp": numpy.log, "log(1+x)": numpy.expm1, "log1p": numpy.expm1, "exp(x)-1": numpy.log1p, "expm1": numpy.log1p}[name]
     lin = 0.3 * X.ravel() + 0.2
     y = inv_np(lin)
-    reg = tp.TransformedTargetRegressor2(regressor=LinearRegression(), transformer=name).fit(X, y)
+    kw = dict(sample_weight=numpy.array([1.0, 2.0, 0.5, 3.0, 1.5, 2.5])) if cfg.get("weighted") else {}
+    reg = tp.TransformedTargetRegressor2(regressor=LinearRegression(), transformer=name).fit(X, y, **kw)
     pred = reg.predict(X)
     if not numpy.allclose(pred, y, rtol=1e-8):
         return True, dict(transformer=name, y=y.tolist(), predict=pred.tolist())
